@@ -73,4 +73,28 @@ TEXTS = {
                     "functions forward parameters positionally. Per-id equality with a stand-alone store as a runtime value is "
                     "not decided.",
             "note": NOTE},
+    "C06": {"technique": "static analysis: typestate/dominance rules on the bounded selection's buffer events, provenance of limit and positions, transitive write effects on the per-record path",
+            "text": "Decides structural clauses: truncate(limit) only directly after a sort, final sort->truncate->reverse before the "
+                    "first pop, limit = self.limit at every selection, pipeline order score->filter->selection->highlight, candidate "
+                    "cap >= 10x over count>0, positions map to self.records[ix], scratch reset-before-read, no cross-record state on "
+                    "the per-record path. Equality with the single-record verdict as a runtime value is not decided.",
+            "note": NOTE},
+    "C07": {"technique": "static analysis: comparator key/direction extraction (A7), confinement of insertion position, score-slot table",
+            "text": "Decides structural clauses: all comparators handed to selections are lexicographic compositions of Ord::cmp on the "
+                    "same integer projection of both arguments (total pre-orders); insertion position is never read on the ranking "
+                    "path; the rating is a score component written once; selection forwards argument order. Order equality across "
+                    "permutations as a runtime value is not decided.",
+            "note": NOTE},
+    "C08": {"technique": "static analysis: score-slot table from MIR (variant discriminants vs writer functions), sign/direction extraction, confinement of the rating, enum-arm tables",
+            "text": "Decides structural clauses: each match-quality component is ranked before the rating, directions/signs as "
+                    "documented, rating read only by its own component, function-word classes exactly the four, function words not "
+                    "counted as matched words, language maps filled before function words are registered, tails/trans/offset "
+                    "formulas keep their recognised shape. Numeric component values are not decided.",
+            "note": NOTE},
+    "C12": {"technique": "static analysis: comparator extraction for the empty-query selection, branch-condition normalisation, memo-cache coherence",
+            "text": "Decides structural clauses: the empty-query selection is exactly (rating desc, normalised title asc) bounded by "
+                    "self.limit, the non-index branch is taken iff the query has no word, the empty query passes the filter, the "
+                    "memoised ranking is coherent with records and limit, and the rating is compared before word/char counts. "
+                    "Found defect D2 (fixed).",
+            "note": NOTE},
 }
